@@ -16,6 +16,8 @@ CONSTANTS
   CachePutFails = TRUE
   CrashInCreate = TRUE
   IssuerEntries = {"e1"}
+  MaxTampers = 0
+  VerifyEdge = TRUE
   Stops = FALSE
 INVARIANTS LockAppendOnly PubAppendOnly PublishedWasLocked PubNotAheadOfLock AckPublished AckInLock SameAck
   StagingDiscardSafe Recoverable LoadedIsServable PubBacked IssuersPresent ImmutableStable LeafTimes LoserStops NoForkInLock LeafCount PoolBound StoppedIsQuiet
